@@ -16,6 +16,7 @@ import (
 	"github.com/tencent/goom/verifsim/val"
 	"github.com/tencent/goom/verifsim/world"
 	"github.com/tencent/goom/verifsim/zoo/fn"
+	"github.com/tencent/goom/verifsim/zoo/fn2"
 	"github.com/tencent/goom/verifsim/zoo/ifc"
 	"github.com/tencent/goom/verifsim/zoo/thunk"
 )
@@ -39,6 +40,7 @@ const (
 	kCb
 	kCbOrigin
 	kStub
+	kUnknown // an operation on this target failed under an injected mprotect fault: entry is pristine or a full jump
 )
 
 type tstate struct {
@@ -60,12 +62,14 @@ type Exec struct {
 	Label   string
 	// Deep > 0: calls are issued on a fresh goroutine below Deep filler frames (+ Fine*16 bytes)
 	Deep, Fine int
-	builders   []*mocker.Builder
-	st         map[int]*tstate
-	phUsed     map[int]bool
-	keep       []interface{}                    // callbacks kept alive by the harness (dropped by dropref)
-	handles    map[[2]int]mocker.ExportedMocker // mocker handle returned by the last fresh-lookup apply per (builder, target)
-	opi        int
+	// Faults: mprotect errno injection is enabled for this history (C02 fault configuration)
+	Faults   bool
+	builders []*mocker.Builder
+	st       map[int]*tstate
+	phUsed   map[int]bool
+	keep     []interface{}                    // callbacks kept alive by the harness (dropped by dropref)
+	handles  map[[2]int]mocker.ExportedMocker // mocker handle returned by the last fresh-lookup apply per (builder, target)
+	opi      int
 }
 
 func (x *Exec) state(t int) *tstate {
@@ -149,7 +153,7 @@ func (x *Exec) at() string {
 
 func opString(op world.Op) string {
 	name := ""
-	if op.K != "reset" && op.K != "gc" && op.K != "grow" && op.K != "dropref" && op.K != "log" && op.K != "checkall" && op.K != "pkg" && op.T < len(Targets) {
+	if op.K != "reset" && op.K != "gc" && op.K != "grow" && op.K != "dropref" && op.K != "log" && op.K != "checkall" && op.T < len(Targets) {
 		name = " " + shortName(Targets[op.T].Name)
 	}
 	return fmt.Sprintf("%s b%d%s f%d n%d", op.K, op.B, name, op.F, op.N)
@@ -174,9 +178,35 @@ func (x *Exec) checkImage() {
 	}
 	// while another task is parked inside a write the seam knows of RWX pages: only "executable"
 	// can be required then; otherwise no text page may be writable
-	if msg := x.env.Image.CheckPages(simcore.InRWXWindow()); msg != "" {
+	if msg := x.env.Image.CheckPages(simcore.InRWXWindow() || x.Faults); msg != "" {
 		x.fail("pages/writable", "%s", msg)
 	}
+}
+
+// guarded runs one goom operation. In the fault configuration an operation may fail because an
+// injected mprotect error made memory.WriteTo panic; that is reported as faulted == true. Any
+// other panic propagates.
+func (x *Exec) guarded(f func()) (faulted bool) {
+	if !x.Faults {
+		f()
+		return false
+	}
+	before := simcore.FaultsFired()
+	pv := catchCall(f)
+	if pv == nil {
+		return false
+	}
+	if simcore.FaultsFired() > before && strings.Contains(fmt.Sprint(pv), "access mem error") {
+		x.env.Probe("operation_failed_under_mprotect_fault")
+		return true
+	}
+	panic(pv)
+}
+
+// unknown marks a target whose last operation failed under an injected fault.
+func (x *Exec) unknown(ti, b int) {
+	s := x.state(ti)
+	*s = tstate{kind: kUnknown, owner: b}
 }
 
 func catchCall(f func()) (pv interface{}) {
@@ -194,6 +224,9 @@ func isNoCondition(pv interface{}) bool {
 func (x *Exec) callTarget(ti, form int, argSeed uint64, hit bool) {
 	t := Targets[ti]
 	s := x.state(ti)
+	if s.kind == kUnknown {
+		return
+	}
 	if s.kind == kOrig {
 		for _, m := range t.Mates {
 			if ms := x.st[m]; ms != nil && ms.kind != kOrig {
@@ -468,14 +501,20 @@ func causeChainOK(pv interface{}) string {
 
 func (x *Exec) step(op world.Op) {
 	switch op.K {
+	case "apply", "ret", "retseq", "when", "bad", "pkglookup":
+		if s := x.st[op.T]; s != nil && s.kind == kUnknown {
+			return // the mocker's internal state after a faulted operation is unspecified: only Cancel / Reset follow
+		}
+	}
+	switch op.K {
 	case "apply":
 		t := Targets[op.T]
 		s := x.state(op.T)
 		rec := &thunk.Rec{}
 		var m mocker.ExportedMocker
-		if op.F&2 != 0 {
+		if kept := x.handles[[2]int{op.B, op.T}]; op.F&2 != 0 && kept != nil {
 			// the caller kept the handle of an earlier apply, cancelled it, and now re-applies through it
-			m = x.handles[[2]int{op.B, op.T}]
+			m = kept
 			x.env.Probe("reapply_through_kept_handle")
 		} else {
 			m = t.Lookup(x.builder(op.B), op.N)
@@ -493,7 +532,11 @@ func (x *Exec) step(op world.Op) {
 			cb = t.MkCb(rec)
 		}
 		x.keep = append(x.keep, cb)
-		m.Apply(cb)
+		if x.guarded(func() { m.Apply(cb) }) {
+			x.unknown(op.T, op.B)
+			x.checkImage()
+			return
+		}
 		s.owner, s.rec, s.stub, s.results = op.B, rec, nil, rec.Results
 		if op.F&1 == 1 {
 			s.kind = kCbOrigin
@@ -505,7 +548,11 @@ func (x *Exec) step(op world.Op) {
 		t := Targets[op.T]
 		s := x.state(op.T)
 		res := val.GenResults(rng.Derive(op.V, 22), t.Typ)
-		t.Lookup(x.builder(op.B), op.N).Return(res...)
+		if x.guarded(func() { t.Lookup(x.builder(op.B), op.N).Return(res...) }) {
+			x.unknown(op.T, op.B)
+			x.checkImage()
+			return
+		}
 		s.owner, s.kind, s.rec = op.B, kStub, nil
 		s.skipRecv = t.SkipRecv != nil && t.SkipRecv(op.N)
 		s.stub = &model.Stub{HasResults: t.Typ.NumOut() > 0, Eq: func(p, a interface{}) bool { return val.Same(p, a, false) }}
@@ -528,7 +575,11 @@ func (x *Exec) step(op world.Op) {
 				vals = append(vals, res)
 			}
 		}
-		t.Lookup(x.builder(op.B), op.N).Returns(vals...)
+		if x.guarded(func() { t.Lookup(x.builder(op.B), op.N).Returns(vals...) }) {
+			x.unknown(op.T, op.B)
+			x.checkImage()
+			return
+		}
 		s.owner, s.kind, s.rec = op.B, kStub, nil
 		s.skipRecv = t.SkipRecv != nil && t.SkipRecv(op.N)
 		s.stub = &model.Stub{HasResults: true, Eq: func(p, a interface{}) bool { return val.Same(p, a, false) }}
@@ -544,7 +595,11 @@ func (x *Exec) step(op world.Op) {
 		if skip {
 			cargs = cargs[1:]
 		}
-		t.Lookup(x.builder(op.B), op.N).When(cargs...).Return(res...)
+		if x.guarded(func() { t.Lookup(x.builder(op.B), op.N).When(cargs...).Return(res...) }) {
+			x.unknown(op.T, op.B)
+			x.checkImage()
+			return
+		}
 		if s.kind != kStub || s.owner != op.B {
 			s.stub = &model.Stub{HasResults: t.Typ.NumOut() > 0, Eq: func(p, a interface{}) bool { return val.Same(p, a, false) }}
 		}
@@ -559,17 +614,32 @@ func (x *Exec) step(op world.Op) {
 	case "cancel":
 		t := Targets[op.T]
 		s := x.state(op.T)
-		if op.F&2 != 0 {
-			x.handles[[2]int{op.B, op.T}].Cancel()
-		} else {
-			t.Lookup(x.builder(op.B), op.N).Cancel()
+		if x.guarded(func() {
+			if kept := x.handles[[2]int{op.B, op.T}]; op.F&2 != 0 && kept != nil {
+				kept.Cancel()
+			} else {
+				t.Lookup(x.builder(op.B), op.N).Cancel()
+			}
+		}) {
+			x.unknown(op.T, op.B)
+			x.checkImage()
+			return
 		}
 		if s.owner == op.B {
 			*s = tstate{kind: kOrig, owner: -1}
 		}
 		x.env.T("cancel %s", shortName(t.Name))
 	case "reset":
-		x.builder(op.B).Reset()
+		if x.guarded(func() { x.builder(op.B).Reset() }) {
+			// Reset walks its mockers; a fault in the middle leaves every target of this builder in doubt
+			for ti, s := range x.st {
+				if s.owner == op.B {
+					x.unknown(ti, op.B)
+				}
+			}
+			x.checkImage()
+			return
+		}
 		for _, s := range x.st {
 			if s.owner == op.B {
 				*s = tstate{kind: kOrig, owner: -1}
@@ -597,6 +667,14 @@ func (x *Exec) step(op world.Op) {
 			ti := r.Intn(len(Targets))
 			x.callTarget(ti, thunk.FormDirect, r.U64(), false)
 		}
+	case "pkglookup":
+		// Pkg(other) followed by a lookup that consumes the override (fresh or cached) and configures
+		// nothing: the NEXT lookup must be back in the caller's package
+		t := Targets[op.T]
+		t.Lookup(x.builder(op.B).Pkg(fn2.PkgPath), op.N)
+		x.env.Probe("pkg_override_consumed")
+		x.env.T("pkglookup %s", shortName(t.Name))
+		return
 	case "gc":
 		simenv.GC()
 		x.env.Probe("explicit_gc")
@@ -917,6 +995,7 @@ func (W) Exec(p *world.Plan, env *world.Env) {
 		return
 	}
 	x := NewExec(env, p, p.Tasks[0].Ops)
+	x.Faults = p.Knobs["faults"] == 1
 	task := func() {
 		for i, op := range p.Tasks[0].Ops {
 			x.opi = i
@@ -962,15 +1041,29 @@ func (x *Exec) final() {
 			rec := &thunk.Rec{}
 			cb := Targets[ti].MkCb(rec)
 			x.keep = append(x.keep, cb)
-			Targets[ti].Lookup(cleanup, 0).Apply(cb)
+			for try := 0; try < 8; try++ {
+				if !x.guarded(func() { Targets[ti].Lookup(cleanup, 0).Apply(cb) }) {
+					break
+				}
+			}
 		}
 	}
+	resetAll := func(b *mocker.Builder) {
+		// under injected faults a Reset may fail part-way; the fault budget is finite, so retrying
+		// terminates, and after a clean Reset everything the builder mocked must be restored
+		for try := 0; try < 8; try++ {
+			if !x.guarded(func() { b.Reset() }) {
+				return
+			}
+		}
+		x.fail("fault/reset-never-succeeds", "Builder.Reset kept failing although the fault budget is exhausted")
+	}
 	if cleanup != nil {
-		cleanup.Reset()
+		resetAll(cleanup)
 	}
 	for _, b := range x.builders {
 		if b != nil {
-			b.Reset()
+			resetAll(b)
 		}
 	}
 	for _, s := range x.st {
